@@ -91,8 +91,14 @@ Fixpoint first_present (d: dict) (ks: list key) : option (key * Z) :=
 Definition field_read (c: cls) (d: dict) (f: fld) : option (key * Z) :=
   first_present d (candidates c f).
 
+(* The class-level discriminator field.  Throughout the library a Discriminator whose field is
+   falsy (None or "") is a discriminator *without* field (unpack.py: `if discriminator.field:`,
+   `if not self.discriminator.field:`): it dispatches by trying the subtypes and reads no key. *)
 Definition discr_keys (c: cls) : list key :=
-  match c_discr c with Some (Some s) => [KeyS s] | _ => [] end.
+  match c_discr c with
+  | Some (Some s) => if String.eqb s "" then [] else [KeyS s]
+  | _ => []
+  end.
 
 Definition accepted (c: cls) : list key :=
   flat_map (candidates c) (c_fields c) ++ discr_keys c.
@@ -150,14 +156,3 @@ Definition outcome_eqb (a b: outcome) : bool :=
   | OExtra x, OExtra y => list_eqb key_eqb x y
   | _, _ => false
   end.
-
-(* ---- domain of the main theorem (the excluded corner is a listed finding) ---- *)
-Definition empty_alias (c: cls) (f: fld) : bool :=
-  match alias_of c f with Some a => String.eqb a "" | None => false end.
-
-(* `if discr and discr.field`: an empty discriminator field name is not a field name *)
-Definition discr_ok (c: cls) : bool :=
-  match c_discr c with Some (Some s) => negb (String.eqb s "") | _ => true end.
-
-Definition in_domain (c: cls) : bool :=
-  forallb (fun f => negb (empty_alias c f)) (c_fields c) && discr_ok c.
